@@ -169,6 +169,9 @@ impl<'a> IrEmitter<'a> {
                     } else {
                         Ok(quote! { #l.pow(#r as u32) })
                     }
+                } else if matches!(plan.lhs_conv, NumericConversion::ToFloat) {
+                    // `(a) as f64.powf(..)` does not parse: a cast cannot be a method receiver without grouping
+                    Ok(quote! { (#l).powf(#r) })
                 } else {
                     Ok(quote! { #l.powf(#r) })
                 }
